@@ -12,7 +12,9 @@ EXPLANATION = (
     "for the creation (deletion) of the file only when its empty side is the range 0,0; an insertion or deletion in the middle of a file "
     "written without context (diff -U0) stays a modification; (R3) sides - applying forward matches the old side and inserts the new "
     "side, applying reversed swaps them (the two accessors are inverse case tables over the direction); (R4) the splice of C03 (R1-R3: "
-    "replaced range, inserted lines, running offset, one report per hunk). Not decided: parsing of every header dialect, line "
+    "replaced range, inserted lines, running offset, one report per hunk); (R5) the placement rules of C02-R4: the position the header "
+    "names is compared first, matches() answers false without comparing only for positions outside [0, len - len(old side)] - an empty "
+    "old side at the very end of the file included - and compares exactly the old side. Not decided: parsing of every header dialect, line "
     "terminators and the no-newline marker, equality of line contents, and '-0,0' hunks against an existing non-empty file (taken for a "
     "creation, refused) - listed in DESIGN §8.9."
 )
@@ -50,7 +52,7 @@ def r1(ck, rule="C01-R1"):
         m = seqmodel.Model([("N", lambda x, s=side: fld(x, s + "_line")), ("c", lambda x, s=side: fld(x, s + "_count"))], fn=ph)
         wrong = None
         try:
-            for n in range(0, 5):
+            for n in range(0, 12 if ck.tier == "thorough" else 5):
                 for c in range(0, 3):
                     v = m.val(e, {"N": n, "c": c})
                     if v != parser_position(n, c):
@@ -148,5 +150,8 @@ def run(ck):
     r1(ck)
     r2(ck)
     r3(ck)
-    from . import c03
+    from . import c02, c03
     c03.run(ck_alias(ck, "C01-R4"), with_order=False)
+    # the position a correct diff names is probed first and accepted whenever the old side is there (matches() refuses without
+    # comparing only inadmissible positions - an empty old side at the very end of the file is admissible); scan order as in C02
+    c02.r4(ck_alias(ck, "C01-R5"))
